@@ -189,6 +189,32 @@ var c05Entries = []c05Entry{
 		ok, st := encoder.Valid(unsafeBytes(s))
 		return fmt.Sprint(ok, st)
 	}},
+	{"ast.NewParser.Parse+LoadAll", func(s string) string {
+		n, e := ast.NewParser(s).Parse()
+		if e != 0 {
+			return fmt.Sprint("parse error ", int(e))
+		}
+		e1 := n.LoadAll()
+		b, e2 := n.MarshalJSON()
+		return string(b) + " " + errS(e1) + errS(e2)
+	}},
+	{"ast.Loads", func(s string) string {
+		_, v, err := ast.Loads(s)
+		b, _ := json.Marshal(v)
+		return string(b) + " " + errS(err)
+	}},
+	{"ast.NewSearcher.GetByPath()+Load", func(s string) string {
+		sr := ast.NewSearcher(s)
+		sr.ValidateJSON = false
+		n, err := sr.GetByPath()
+		if err != nil {
+			return errS(err)
+		}
+		e1 := n.Load()
+		v, e2 := n.Interface()
+		b, _ := json.Marshal(v)
+		return string(b) + " " + errS(e1) + errS(e2)
+	}},
 	{"ast.Preorder", func(s string) string {
 		var v c05Visitor
 		err := ast.Preorder(s, &v, nil)
@@ -241,7 +267,7 @@ func (v *c05Visitor) OnArrayEnd() error            { v.sb.WriteString("];"); ret
 
 var c05Frags = []string{"t", "tr", "tru", "true", "n", "nu", "nul", "null", "f", "fa", "fal", "fals", "false",
 	`"`, `"a`, `"abc\`, `"\u12`, `"\ud800`, `"\ud800\u`, `"\ud800\udc0`, "-", "1", "12", "1.", "1e", "1e+", "-0", "0.1",
-	"[", "[1", "[1,", `{"a"`, `{"a":`, `{"a":[`, " ", "", "\xe2\x82", "\xff", "\xf0\x9f\x98", `\`, `\u`, `\u00`, `a\`, `<`, `&`, "\xe2\x80"}
+	"[", "[1", "[1,", `{"a"`, `{"a":`, `{"a":[`, " ", "", "[ ", "{", "{\n\t ", `{"a":[ `, `[[`, `[{`, `{"a":{`, "[1, 2 ", "[1,\n", `{"a": 1 `, `{"a":1,`, `{"a":1, `, `"abc" `, "1 ", "true ", "[1] ", "\t", " \n", "\xe2\x82", "\xff", "\xf0\x9f\x98", `\`, `\u`, `\u00`, `a\`, `<`, `&`, "\xe2\x80"}
 var c05Conts = []string{"rue", "ull", "alse", `"`, `\"`, `\\`, "0123456789", "}", "]", "e5", ".5", "\x80\x80\x80", "      ", `"}`, `":1}`, "\x00\x00\x00\x00", "u0041", "dc00", `"]}`, ",1]", "ue}", "ll]"}
 
 func c05Class(s string) string {
